@@ -5,7 +5,7 @@
 (* is reported (MISMATCH line) and validation continues with the state      *)
 (* advanced from what the implementation really did.                        *)
 (***************************************************************************)
-EXTENDS Cert, Names, TLC, Json, IOUtils
+EXTENDS Crl, Names, TLC, Json, IOUtils
 
 Rec == ndJsonDeserialize(IOEnv.TRACE)
 
@@ -29,6 +29,20 @@ ReqCertEv(ev) ==
         ELSE { <<"C02.decodable", FALSE>>, <<"C04.der_strict", FALSE>> })
        \cup { <<"C01.fail_yields_err_and_no_artefact", ~ev.args.signerFails>> }
   ELSE { <<"C02.issued_when_encodable", ~CertMustSucceed(ev)>> }
+
+ReqCsrEv(ev) ==
+  IF ev.out = "Ok"
+  THEN (IF ev.obs.parseOk
+        THEN ReqCsrOk(ev.args, ev.obs) \cup ReqCsrRoundTrip(ev.args, ev.obs)
+             \cup { <<"C15.params_unchanged", ev.obs.paramsUnchanged>> }
+        ELSE { <<"C07.decodable", FALSE>>, <<"C04.der_strict", FALSE>> })
+  ELSE { <<"C07.not_refused_otherwise", CsrUnsupported(ev.args.params) \/ ev.args.signerFails>> }
+
+ReqCrlEv(ev) ==
+  IF ev.out = "Ok"
+  THEN (IF ev.obs.parseOk THEN ReqCrlOk(ev.args, ev.obs)
+        ELSE { <<"C08.decodable", FALSE>>, <<"C04.der_strict", FALSE>> })
+  ELSE { <<"C08.no_refusal_otherwise", CrlMustBeRefused(ev.args) \/ ev.args.signerFails \/ ~CrlTimesInScope(ev.args.params)>> }
 
 (* ---- C20: the distinguished-name container, judged against the specification's own state ---- *)
 NameOf(h) == IF h \in DOMAIN names THEN names[h] ELSE <<>>
@@ -59,6 +73,8 @@ NamesNext(ev) ==
 ReqOf(ev) ==
   ReqCommon(ev) \cup
   (CASE ev.op = "Cert" -> ReqCertEv(ev)
+     [] ev.op = "Csr" -> ReqCsrEv(ev)
+     [] ev.op = "Crl" -> ReqCrlEv(ev)
      [] ev.op \in {"DnPush", "DnRemove", "DnEq", "DnEncode"} -> ReqDnEv(ev)
      [] OTHER -> {})
 
